@@ -20,7 +20,10 @@ static const std::vector<Problem<D>> &problems() {
   static std::vector<Problem<D>> ps;
   if (ps.empty()) {
     auto mk = [&](int N, double t0, uint64_t seed, double a, double b) { Problem<D> p; p.N = N; p.t0 = t0; for (int i = 0; i < N; ++i) p.T.push_back((i % 2) ? b : a); set_generic_data(p, seed); return p; };
-    ps.push_back(mk(1, 0.0, 21, 1.5, 1.0)); ps.push_back(mk(2, -1.0, 22, 1.0, 0.5)); ps.push_back(mk(3, 2.5, 23, 0.5, 2.0)); ps.push_back(mk(5, 0.0, 24, 1.0, 1.5)); ps.push_back(mk(3, 0.125, 25, 2.0, 0.75));
+    // the first four problems share the duration pattern (1, 1.5, 1, 1.5, 1): each smaller one is a bit-identical PREFIX of the
+    // larger ones, so a shrinking update meets unchanged leading durations (seeded change C10-m3: factorisation reused when "no
+    // duration changed"); the fifth has other durations
+    ps.push_back(mk(1, 0.0, 21, 1.0, 1.5)); ps.push_back(mk(2, -1.0, 22, 1.0, 1.5)); ps.push_back(mk(3, 2.5, 23, 1.0, 1.5)); ps.push_back(mk(5, 0.0, 24, 1.0, 1.5)); ps.push_back(mk(3, 0.125, 25, 2.0, 0.75));
   }
   return ps;
 }
